@@ -841,6 +841,9 @@ func (p *ProjectRunner) removeProcess(name string) error {
 			running.waitForCompletion()
 		}
 	}
+	p.statesMutex.Lock()
+	delete(p.processStates, name)
+	p.statesMutex.Unlock()
 	return nil
 }
 
